@@ -1,0 +1,32 @@
+//! Verification hooks, compiled only with `--cfg lettre_verif`.
+//!
+//! Thin `pub` wrappers around crate-private pure functions so that an external
+//! harness can run them. Nothing here changes behaviour.
+
+/// `parse_response` with nom's four-way outcome:
+/// `Ok((code, lines, rest))`, or `Err(0)` incomplete, `Err(1)` error, `Err(2)` failure
+#[cfg(feature = "smtp-transport")]
+pub fn parse_response(i: &str) -> Result<(u16, Vec<String>, String), u8> {
+    match crate::transport::smtp::response::parse_response(i) {
+        Ok((rest, r)) => Ok((
+            r.code().into(),
+            r.message().map(str::to_owned).collect(),
+            rest.to_owned(),
+        )),
+        Err(nom::Err::Incomplete(_)) => Err(0),
+        Err(nom::Err::Error(_)) => Err(1),
+        Err(nom::Err::Failure(_)) => Err(2),
+    }
+}
+
+/// `crate::base64::encode`
+#[cfg(any(feature = "smtp-transport", feature = "dkim"))]
+pub fn base64_encode(i: &[u8]) -> String {
+    crate::base64::encode(i)
+}
+
+/// `crate::base64::decode`
+#[cfg(any(feature = "smtp-transport", feature = "dkim"))]
+pub fn base64_decode(i: &[u8]) -> Option<Vec<u8>> {
+    crate::base64::decode(i).ok()
+}
